@@ -137,6 +137,17 @@ theorem newCells_step {h : Heap (Cell D)} (wf : WFH h) (c : D) : Step roots h (n
 theorem newCells_length (h : Heap (Cell D)) (c : D) : (newCells h c).length = h.length + 2 := by
   simp [newCells]
 
+theorem emptyCell_step {h : Heap (Cell D)} (wf : WFH h) : Step roots h (emptyCell h) := by
+  unfold emptyCell
+  apply Step.alloc wf
+  intro cell hcell r hr
+  simp only [List.mem_singleton] at hcell
+  subst hcell
+  simp at hr
+
+theorem emptyCell_length (h : Heap (Cell D)) : (emptyCell h).length = h.length + 1 := by
+  simp [emptyCell]
+
 /-- returning handed objects or new containers -/
 theorem applyRets_step (args : List Ref) (hsub : ∀ a ∈ args, a ∈ roots) (rets : List Sel) :
     ∀ (h : Heap (Cell D)), WFH h → (∀ a ∈ args, a < h.length) →
@@ -161,6 +172,18 @@ theorem applyRets_step (args : List Ref) (hsub : ∀ a ∈ args, a ∈ roots) (r
       · exact ⟨(hr2 r hr).1, InFoot.mono s1 (hr2 r hr).2⟩
     cases sel with
     | new c => exact alloc_case c
+    | empty =>
+      show Step roots h (applyRets (emptyCell h) args rest).1 ∧
+        ∀ r ∈ h.length :: (applyRets (emptyCell h) args rest).2,
+          r < (applyRets (emptyCell h) args rest).1.length ∧ InFoot roots h r
+      have s1 := emptyCell_step (roots := roots) wf
+      obtain ⟨s2, hr2⟩ := ih (emptyCell h) s1.wf (fun a ha => lt_of_lt_of_le (hargs a ha) s1.le)
+      refine ⟨s1.trans s2, ?_⟩
+      intro r hr
+      rcases List.mem_cons.mp hr with rfl | hr
+      · refine ⟨lt_of_lt_of_le ?_ s2.le, Or.inr (le_refl _)⟩
+        rw [emptyCell_length]; omega
+      · exact ⟨(hr2 r hr).1, InFoot.mono s1 (hr2 r hr).2⟩
     | arg j =>
       simp only [applyRets]
       split
@@ -193,6 +216,7 @@ theorem applyRets_length (args : List Ref) (rets : List Sel) :
     intro h
     cases sel with
     | new c => simp [applyRets, ih]
+    | empty => simp [applyRets, ih]
     | arg j =>
       simp only [applyRets]
       split <;> simp [ih]
